@@ -97,3 +97,10 @@ exception_history = dict(
     bounded=dict(bound='every history of <= 6 (thorough: 8) statements over 5 kinds, two sinks', form='b'),
     dropped=[], trusted=['g++ / libstdc++ / fmt execute the real frontend and backend'], min_obligations=1, timeout=1500)
 UNITS += [exception_history]
+named_json = dict(
+    name='BW.named_json', primary='C19', props={'C19'}, kind='L', funcs=[], enforce=None,
+    desc='named placeholders through the real pipeline (LOG macros, ManualBackendWorker) into a recording sink (text message, structured pairs) and a real JsonFileSink: text = positional formatting, one pair per argument in order with its own spec, one single-line JSON object per statement with the original template and the pairs - first use and cached use of each template',
+    native=dict(cpp='named_json.cpp', file='include/quill/backend/BackendWorker.h', function='BackendWorker::{_populate_formatted_named_args,_process_named_args_format_message,_format_and_split_arguments}, JsonSink::{write_log,generate_json_message}', defs_quick=[], defs_thorough=[]),
+    bounded=dict(bound='8 templates x 27 value tuples x 2 orders x 2 passes', form='b'),
+    dropped=[], trusted=['g++ / libstdc++ / fmt execute the real frontend, backend and sink'], min_obligations=1, timeout=900)
+UNITS += [named_json]
